@@ -1,6 +1,6 @@
 (* C10 — property theorems only. *)
 From Coq Require Import List Bool ZArith QArith String.
-From V Require Import C15.Model C15.Proofs C10.Model C10.Spec C10.Proofs.
+From V Require Import C15.Model C15.Proofs C10.Model C10.Spec C10.Proofs C10.Closure.
 From V Require Import Extracted.Radii.
 Import ListNotations.
 
@@ -49,6 +49,13 @@ Theorem molecule_residues_connected : forall atoms es r1 r2,
   mol_of atoms es r1 = mol_of atoms es r2 -> exists k, walk (res_graph atoms es) k r1 r2.
 Proof. exact same_molecule_connected. Qed.
 Print Assumptions molecule_residues_connected.
+
+(* ... and conversely residues joined by a path of bonds are placed in the same molecule: the molecules are exactly the
+   connected components of the residue graph (the breadth-first closure is complete: pigeon-hole on the fuel). *)
+Theorem connected_residues_same_molecule : forall atoms es r1 r2 k,
+  In r1 (map a_res atoms) -> walk (res_graph atoms es) k r1 r2 -> mol_of atoms es r1 = mol_of atoms es r2.
+Proof. exact connected_same_molecule. Qed.
+Print Assumptions connected_residues_same_molecule.
 
 (* the radii regenerated from the source are Bondi's (1964) in nm; D as H *)
 Definition radius_ok (er : string * Q) : bool :=
